@@ -53,8 +53,11 @@ BitExact == HasField(Scope, "bitexact")
 Tol(q) == IF BitExact THEN QMul(<<WFromInt(2), WPow10(12)>>, QMax(QOne, QAbs(FA)))
           ELSE QMul(QMul(Eps9, QMax(QOne, QMax(QAbs(FA), QAbs(FB)))), QMax(QOne, QAbs(q)))
 
+(* "rescaled": the second run was made in units of 2^k and its answers were converted back by the harness (an exact
+   operation), so a view that scales with its input must answer bit-identically *)
+Expect2(k) == IF HasField(Scope, "rescaled") /\ Expect(k) = "scale" THEN "inv" ELSE Expect(k)
 RelOK ==
-    LET e == Expect(Cfg.k) a == ObsA b == ObsB IN
+    LET e == Expect2(Cfg.k) a == ObsA b == ObsB IN
     IF e = "none" \/ Degenerate \/ (HasField(Scope, "invonly") /\ e # "inv") THEN TRUE
     ELSE IF ~OIsSome(a) \/ ~OIsSome(b) THEN (Tally("rel.nonvalue") /\ a[1] = b[1])
     ELSE /\ Tally("rel." \o e)
@@ -65,5 +68,5 @@ RelOK ==
               [] e = "rsi"    -> QClose(OQ(b), QSub(QInt(100), OQ(a)), Tol(QInt(100)))
 
 Verdict == /\ Tally("states")
-           /\ (RelOK \/ Report(Prop, Mode \o "." \o Expect(Cfg.k)))
+           /\ (RelOK \/ Report(Prop, Mode \o "." \o Expect2(Cfg.k)))
 =============================================================================
